@@ -199,4 +199,218 @@ def timerKeyArgs : List (String × String) := [
   ("DestroySession.Remove", "lockTimerKey(lk.Name(), lk.Key())")
 ]
 
+def fp_lock_lock_NewLock : String := "d4400d5fa3fae080"
+
+def fp_lock_lock_Lock_Size : String := "a8c5ec5a51762bd2"
+
+def fp_lock_lock_Lock_Keys : String := "7071540bc534505b"
+
+def fp_lock_lock_Lock_lockKeys : String := "3747af358e8a1c87"
+
+def fp_lock_lock_Lock_unlockKeys : String := "12afd63f87f1957e"
+
+def fp_lock_lock_Lock_Lock : String := "24c6305c7d07f030"
+
+def fp_lock_lock_Lock_TryLock : String := "e86ae14f06c9bef9"
+
+def fp_lock_lock_Lock_Unlock : String := "fa37302972cb0b09"
+
+def fp_lock_lock_Lock_addKey : String := "98ebde1fa6b9a35a"
+
+def fp_lock_manager_NewManagedLock : String := "c3cfd87364aceaf2"
+
+def fp_lock_manager_NewManager : String := "fe1b5f8139f55162"
+
+def fp_lock_manager_Manager_getShard : String := "a1f596a6c73b1b1f"
+
+def fp_lock_manager_Manager_shutdown : String := "a21f5c7d0760606f"
+
+def fp_lock_manager_Manager_getLock : String := "89b7e22ffc6b733b"
+
+def fp_lock_manager_Manager_Lock : String := "b3a78f0a87d5a3ad"
+
+def fp_lock_manager_Manager_TryLock : String := "3c861dc7cc9f73de"
+
+def fp_lock_manager_Manager_Unlock : String := "e1e8415d8eb20442"
+
+def fp_lock_manager_Manager_lockGc : String := "1c709ed55fdf0790"
+
+def fp_lock_manager_Manager_Locks : String := "5c2adc23514f73bc"
+
+def fp_timermap_timermap_New : String := "7bfa6bb474b5152d"
+
+def fp_timermap_timermap_TimerMap_Add : String := "d8c62d0874a15c32"
+
+def fp_timermap_timermap_TimerMap_Remove : String := "ce8fae6c7455bbd4"
+
+def fp_timermap_timermap_TimerMap_Reset : String := "6e63112ea24222fa"
+
+def fp_timermap_timermap_TimerMap_shutdown : String := "c7c679c3e023a667"
+
+def fp_server_server_lockTimerKey : String := "c5f416167102a062"
+
+def fp_server_server_New : String := "2983141b82215c42"
+
+def fp_server_server_LockServer_Lock : String := "5d4c78175f668159"
+
+def fp_server_server_LockServer_Unlock : String := "b03d29042086a906"
+
+def fp_server_server_LockServer_TryLock : String := "0ae939aca2e2a058"
+
+def fp_server_server_LockServer_Renew : String := "ec4eb8cf57e4c2a1"
+
+def fp_server_server_LockServer_Locks : String := "8fdbab2ce5539956"
+
+def fp_server_server_LockServer_SessionId : String := "e573c920d6f35761"
+
+def fp_server_server_LockServer_CreateSession : String := "a5cc599441e28bb4"
+
+def fp_server_server_LockServer_SetShuttingDown : String := "54b9721d804e9da3"
+
+def fp_server_server_LockServer_DestroySession : String := "8239f3a4034818b5"
+
+def fp_server_server_LockServer_onTimeoutFunc : String := "ee575fb2d063557f"
+
+def fp_server_session_session_NewManager : String := "5ca359a0b1c682f8"
+
+def fp_server_session_session_sessionManager_Locks : String := "67493f071b8eb610"
+
+def fp_server_session_session_sessionManager_SetStore : String := "97625d34a6f05b7f"
+
+def fp_server_session_session_sessionManager_Load : String := "bbd42fe66f815d45"
+
+def fp_server_session_session_sessionManager_Save : String := "9404ce9805d10d3e"
+
+def fp_server_session_session_sessionManager_RemoveLock : String := "412eef7bf932a6d8"
+
+def fp_server_session_session_sessionManager_AddLock : String := "436f7ec5c8000602"
+
+def fp_server_session_session_sessionManager_CreateSession : String := "c21a993e958869ee"
+
+def fp_server_session_session_sessionManager_DestroySession : String := "bb064f981806fa92"
+
+def fp_server_session_store_store_New : String := "71c62244b9b14bfb"
+
+def fp_server_session_store_store_store_Write : String := "0dc7e33c7d56acd2"
+
+def fp_server_session_store_store_store_Read : String := "a15ed28a9a8e8595"
+
+def fp_server_session_store_store_store_Close : String := "4e97731b5eee2cfc"
+
+def fp_server_session_store_store_lockSize : String := "a10d051ea36a47e7"
+
+def fp_server_session_store_store_marshalLock : String := "f0b93791144e360b"
+
+def fp_server_session_store_store_unmarshalLock : String := "b9bbaeb8d1a271a2"
+
+def fp_server_session_store_store_marshalLocks : String := "a26923cd55734c58"
+
+def fp_server_session_store_store_unmarshalLocks : String := "a1d7ad85e8f459e3"
+
+def fp_server_ipc_ipc_IPC_Unlock : String := "f20ecad63ca6b4b7"
+
+def fp_server_ipc_ipc_IPC_ListLocks : String := "20f4de1cdfc40a66"
+
+def fp_net_rest_rest_restHandler_ServeHTTP : String := "0b151c3347286669"
+
+def fp_net_rest_rest_restHandler_ValidatePassword : String := "469970c23cce8baf"
+
+def fp_net_rest_rest_restHandler_ValidateSession : String := "fa29095bb900f082"
+
+def fp_net_rest_rest_restHandler_DestroySession : String := "3317c9596c7327eb"
+
+def fp_net_rest_rest_restHandler_CreateSession : String := "20c49babc91e330c"
+
+def fp_net_rest_rest_restHandler_onTimeoutFunc : String := "b520532daf0b7ddc"
+
+def fp_net_rest_rest_Run : String := "7444684083624d1f"
+
+def fp_net_rest_rest_NewRestServer : String := "0e5e4a42d37dd44d"
+
+def fp_net_grpc_grpc_Service_Lock : String := "39132fa414ac5180"
+
+def fp_net_grpc_grpc_Service_Unlock : String := "ffa33f17adce51a7"
+
+def fp_net_grpc_grpc_Service_TryLock : String := "5e23c58e7e30fa90"
+
+def fp_net_grpc_grpc_Service_Renew : String := "d5bbb46706d86bd2"
+
+def fp_net_grpc_grpc_Service_HandleConn : String := "0c63abb89aee0537"
+
+def fp_net_grpc_grpc_Service_TagConn : String := "8947419221fab913"
+
+def fp_net_grpc_grpc_Service_TagRPC : String := "cfb1a4a6cd69527c"
+
+def fp_net_grpc_grpc_Service_HandleRPC : String := "9fe8322a320257b0"
+
+def fp_net_grpc_grpc_NewService : String := "762bb49eac2c081a"
+
+def fp_net_grpc_grpc_Run : String := "5ad0b509b3e7a51e"
+
+def fp_net_grpc_grpc_authPasswordInterceptor : String := "863bb5cc0537355a"
+
+def fp_net_grpc_grpc_lockErrToProtoBuffErr : String := "15bd3af5d2e0d8ac"
+
+def fp_net_net_Run : String := "4cc945e928d276ec"
+
+def fp_net_security_security_GetTLSConfig : String := "9954b45ddf85d8db"
+
+def fp_client_client_Lock_Unlock : String := "3fc3bd62a33464a4"
+
+def fp_client_client_Lock_Renew : String := "52b6ca2bb2d800e5"
+
+def fp_client_client_New : String := "328b35b9a88911ef"
+
+def fp_client_client_Client_Lock : String := "e71d22a67f023540"
+
+def fp_client_client_Client_TryLock : String := "4aba6dff97c20c81"
+
+def fp_client_client_Client_Unlock : String := "1f8ccbac49273c63"
+
+def fp_client_client_Client_Renew : String := "f35ff2abe5c6d5c9"
+
+def fp_client_client_Client_Close : String := "985f25970566766d"
+
+def fp_client_client_Client_maybeCreateRenewer : String := "32332c340f8474d8"
+
+def fp_client_client_Client_maybeRemoveRenewer : String := "3e0330a735eb9f68"
+
+def fp_client_client_newRenewer : String := "2590c5e710ef65f7"
+
+def fp_client_client_renewer_Start : String := "380befa77ecaffa5"
+
+def fp_client_client_renewer_Stop : String := "44d5604b3c3fcf04"
+
+def fp_client_client_rpcErrorToError : String := "470c66abd9adc4f1"
+
+def fp_client_client_rpcWithRetry : String := "896d805031c93a4d"
+
+def fp_cmd_server_main_main : String := "c8efb5ce2f5c413c"
+
+def fp_server_clientlock_clientlock_Lock_Name : String := "e4486eaef96e89fb"
+
+def fp_server_clientlock_clientlock_Lock_Key : String := "fe1a7988d9169bbc"
+
+def fp_server_clientlock_clientlock_Lock_Size : String := "51c514de0b47237a"
+
+def fp_server_clientlock_clientlock_New : String := "deaa4c4c7bdc978f"
+
+def fp_server_ipc_server_setUp : String := "47aa9c3530bbc5c2"
+
+def fp_server_ipc_server_Run : String := "22e26c857abefc05"
+
+def fp_server_ipc_server_DefaultSocketPath : String := "677c00f2b0b6363b"
+
+def fp_server_ipc_server_socketPathExists : String := "cc8313c5c9d485f4"
+
+def fp_cmd_lock_cmd_list_ListArgsAndFlags_Run : String := "84135c6dc6ba6cfb"
+
+def fp_cmd_lock_cmd_unlock_UnlockArgsAndFlags_Run : String := "c1cd60ff2063f1d1"
+
+def fp_cmd_lock_main_newClient : String := "23b8991e235a1fd0"
+
+def fp_cmd_lock_main_main : String := "15629b3342836146"
+
+def fp_cmd_lock_main_getDefaultSocketPath : String := "31fb7e097136a823"
+
 end Ldlm.Facts
